@@ -392,7 +392,14 @@ class LinEval:
             v = self.ev(a[0])
             return None if v is None else (not v)
         if n in ('and', 'or'):
-            vs = [self.ev(x) for x in a]
+            # short-circuit, as the program does: operands after a deciding one are not evaluated (they may read an empty
+            # buffer or compare values that do not exist on this path)
+            vs = []
+            for x in a:
+                v_ = self.ev(x)
+                vs.append(v_)
+                if (n == 'and' and v_ is False) or (n == 'or' and v_ is True):
+                    return v_
             if n == 'and':
                 if any(v is False for v in vs):
                     return False
